@@ -36,6 +36,10 @@ CLAIMED = {
          "Seeded search over request sequences (handler, ranged and whole content, redirect, unknown and stalling paths; with and without Connection: close; keep-alive on and off; malformed inputs), all ways of cutting the client byte stream into writes spaced in virtual time (byte-at-a-time, inside the method, inside CRLFCRLF, several requests per write), pipelining depths, 1-4 successive or overlapping clients, client EOF at generated offsets, and stop() from a timer, at a step-hook boundary or after quiescence, over loss-free routes with varied latency, bandwidth and MTU. A reference model computes the expected response stream per connection; responses are matched by index and checked byte-exactly, with content-length framing, close behaviour, next-client acceptance and port release after stop().", "3.16"),
  "C19": ("tcp", "exploration", "deterministic simulation: capture file re-read by an independent parser and compared with probe-observed sends",
          "The C05 program generator (several IPv4 TCP connections, both directions, finite queues and fault sinks causing retransmission, closes, reconnects) plus UDP datagrams that fit one IPv4 packet, with capture enabled. After the simulation is destroyed the file is parsed by an independent reader and compared record by record with what the first-hop probes saw being transmitted: count and order, lengths, IP/UDP/TCP header fields, true addresses and ports, payload bytes, timestamp = capture epoch + virtual send time (non-decreasing), TCP sequence number = payload bytes previously transmitted in that direction, starting at zero.", "3.19"),
+ "C04": ("lifecycle", "fault_enumeration", "deterministic simulation with crash-point enumeration: every event boundary x {cancel, close, destroy, supersede} through the guarded step hook",
+         "Seeded base scenarios that between them start every asynchronous operation kind are executed cleanly to learn their event boundaries, then re-executed once per boundary k (all of them up to 160, stride-sampled beyond), per object with an operation outstanding at k and per applicable intervention (cancel, close, destroy, start another operation of the same kind). Tracked handlers establish: never invoked from inside an initiating or cancelling call, at most once, exactly once and with operation_aborted on the intervened object unless it completed in the same instant, never destroyed uninvoked while the simulation runs; ASan, UBSan, libstdc++ assertions and (second flavour) library asserts catch dangling references.", "3.4"),
+ "C12": ("lifecycle", "fault_enumeration", "deterministic simulation with crash-point enumeration: every event boundary x {close, cancel, destroy, move, throw} under ASan/UBSan/assertions",
+         "The same base scenarios over loss-free and lossy routes (a bottleneck behind a fast hop, so segments are dropped long after they were sent), re-executed once per boundary k and per live object with close, cancel, destroy, move-construct-then-destroy-source (idle objects only), and once per boundary with 'the next user handler throws'. Oracle: no signal, sanitizer report, libstdc++ or library assertion, no exception other than the injected one; handler discipline; an unrelated transfer and timer in the same simulation complete intact; the injected exception leaves run() and everything is destroyed without further calls. Both an NDEBUG (as shipped) and an asserts-on build are run.", "3.12"),
 }
 
 NOT_YET = "not claimed yet: the engine for this property is still under construction in this tree"
